@@ -8,7 +8,10 @@ object payloads only, by ``MaskedObj``: an object ndarray plus a boolean mask
 with the documented numpy.ma semantics for the operations chi applies
 (element-wise arithmetic: masks are OR-ed; ``log``/``exp``: element-wise on
 unmasked cells; ``sum``/``max`` over an axis: masked cells are skipped, a
-fully masked slice is masked; basic indexing applies to data and mask).
+fully masked slice is masked; basic indexing applies to data and mask;
+``count``/``getmask``/``getdata``; any other ``np.ma`` function applied to a
+stub raises, i.e. the run is reported as a harness error rather than decided
+on a wrong model).
 Every case that uses it is cross-checked against the real numpy.ma by the
 differential float run of the same case.
 """
@@ -213,5 +216,48 @@ class MA(object):
             return bool(x.mask.any())
         return _np.ma.is_masked(x)
 
+    def count(self, a, axis=None, keepdims=False):
+        if not isinstance(a, MaskedObj):
+            return _np.ma.count(a, axis=axis, keepdims=keepdims)
+        return _np.sum(~a.mask, axis=axis, keepdims=keepdims)
+
+    def getmaskarray(self, a):
+        if isinstance(a, MaskedObj):
+            return a.mask.copy()
+        return _np.ma.getmaskarray(a)
+
+    def getmask(self, a):
+        if isinstance(a, MaskedObj):
+            return a.mask.copy() if a.mask.any() else _np.ma.nomask
+        return _np.ma.getmask(a)
+
+    def getdata(self, a):
+        if isinstance(a, MaskedObj):
+            return a.data
+        return _np.ma.getdata(a)
+
+    def sum(self, a, axis=None, keepdims=False, **k):
+        if isinstance(a, MaskedObj):
+            return a.sum(axis=axis, keepdims=keepdims)
+        return _np.ma.sum(a, axis=axis, keepdims=keepdims, **k)
+
+    def max(self, a, axis=None, keepdims=False, **k):
+        if isinstance(a, MaskedObj):
+            return a.max(axis=axis, keepdims=keepdims)
+        return _np.ma.max(a, axis=axis, keepdims=keepdims, **k)
+
     def __getattr__(self, name):
-        return getattr(_np.ma, name)
+        real = getattr(_np.ma, name)
+        if not callable(real) or isinstance(real, type):
+            return real
+
+        def guarded(*a, **k):
+            # anything not modelled above must not silently treat the stub
+            # as a plain array (masked cells would be counted as data)
+            if any(isinstance(x, MaskedObj) for x in a) or any(
+                    isinstance(x, MaskedObj) for x in k.values()):
+                raise NotImplementedError(
+                    'numpy.ma.%s is not modelled for symbolic payloads'
+                    % name)
+            return real(*a, **k)
+        return guarded
